@@ -363,13 +363,23 @@ pub fn run(tier: Tier) -> i32 {
         all_orders(k, &mut rep);
     }
     if tier.thorough() {
-        for n in [33, 63, 64, 65, 66, 127, 128, 129, 130, 191, 192, 193, 194, 255, 256, 257] {
+        // (every left run up to 130 operands; beyond that the cost per length grows cubically:
+        // every 4th / 8th left run plus the runs around the word boundaries)
+        for n in [33, 63, 64, 65, 66, 127, 128, 129, 130] {
             tracker_situations(n, &[0, 1, 2, 62, 63, 64, 65], 1, &mut rep);
+        }
+        for n in [191, 192, 193, 194] {
+            tracker_situations(n, &[0, 1, 2, 62, 63, 64, 65], 4, &mut rep);
+        }
+        for n in [255, 256, 257] {
+            tracker_situations(n, &[0, 1, 64, 65], 8, &mut rep);
         }
         for (n, b) in [(70, 64), (130, 64), (134, 128), (198, 128), (198, 192), (257, 192)] {
             boundary_windows(n, b, &mut rep);
         }
-        structured_orders((2..=260).chain(510..=514).collect(), &mut rep);
+        // (one operator table per call, sized by the longest chain of the call)
+        structured_orders((2..=257).collect(), &mut rep);
+        structured_orders((258..=260).chain(510..=514).collect(), &mut rep);
     } else {
         for n in [64, 65, 66] {
             tracker_situations(n, &[0, 1, 64], 1, &mut rep);
@@ -377,7 +387,8 @@ pub fn run(tier: Tier) -> i32 {
         tracker_situations(129, &[0, 1, 64], 8, &mut rep);
         tracker_situations(193, &[0, 64], 32, &mut rep);
         boundary_windows(70, 64, &mut rep);
-        structured_orders((2..=140).chain(254..=258).collect(), &mut rep);
+        structured_orders((2..=140).collect(), &mut rep);
+        structured_orders((254..=258).collect(), &mut rep);
     }
     very_long_chains(tier, &mut rep);
     rep.finish()
